@@ -245,7 +245,8 @@ Feature(c) ==
        chn == \E i \in DOMAIN m : \E j \in DOMAIN m : i # j /\ m[j].k \in Subterms(m[i].v)
        cmp == \E i \in DOMAIN m : m[i].k.args # <<>>
        hit == \E i \in DOMAIN m : m[i].k \in sub
+       idp == \E i \in DOMAIN m : m[i].k = m[i].v
    IN <<MapVerdict(m),
-        IF q THEN "key-has-bound-var" ELSE IF nst THEN "nested-keys" ELSE IF chn THEN "key-in-value"
+        IF idp THEN "identity-pair" ELSE IF q THEN "key-has-bound-var" ELSE IF nst THEN "nested-keys" ELSE IF chn THEN "key-in-value"
         ELSE IF cmp THEN "compound-key" ELSE IF hit THEN "leaf-key" ELSE "no-occurrence">>
 =============================================================================
